@@ -45,14 +45,15 @@ fn main() {
             let n: usize = args[4].parse().unwrap();
             let tier = args[5].as_str();
             let prefix = args[6].as_str();
+            let profile = args.get(7).map(|s| s.as_str()).unwrap_or("default");
             let mut rng = gen::Rng::new(seed);
             let mut req = std::io::BufWriter::new(std::fs::File::create(format!("{}.req", prefix)).unwrap());
             let mut imp = std::io::BufWriter::new(std::fs::File::create(format!("{}.imp", prefix)).unwrap());
             let mut stats = std::collections::BTreeMap::<String, u64>::new();
             for i in 0..n {
                 let line = match kind {
-                    "flat" => k_flat::gen(&mut rng, tier, i, &mut stats),
-                    "forms" => k_forms::gen(&mut rng, tier, i, &mut stats),
+                    "flat" => k_flat::gen_profile(&mut rng, tier, i, &mut stats, profile),
+                    "forms" => k_forms::gen(&mut rng, tier, i, &mut stats, profile),
                     "vars" => k_vars::gen(&mut rng, tier, i, &mut stats),
                     "lex" => k_lex::gen(&mut rng, tier, i, &mut stats),
                     "damage" => k_damage::gen(&mut rng, tier, i, &mut stats),
